@@ -63,7 +63,49 @@ fn twins(args: &Args, id: u64) -> (Db, Db, std::path::PathBuf) {
     (mem, disk, dir)
 }
 
-const INDEXES: [(&str, &str); 3] = [("ix_a", "a"), ("ix_b", "b"), ("ix_ac", "a, c")];
+/// the two table shapes: 0 = integer / string keys (many duplicates), 1 = fractional, REAL, NUMERIC,
+/// string and DATE keys on a dense grid (k, k+0.25, k+0.5, k+0.75): no "next value = +1" anywhere
+static SCHEMA: std::sync::atomic::AtomicUsize = std::sync::atomic::AtomicUsize::new(0);
+fn schema() -> usize {
+    SCHEMA.load(std::sync::atomic::Ordering::Relaxed)
+}
+fn set_schema(k: usize) {
+    SCHEMA.store(k, std::sync::atomic::Ordering::Relaxed)
+}
+const INDEXES_T: [(&str, &str, &[usize]); 3] = [("ix_a", "a", &[1]), ("ix_b", "b", &[2]), ("ix_ac", "a, c", &[1, 3])];
+const INDEXES_U: [(&str, &str, &[usize]); 7] =
+    [("ix_x", "x", &[1]), ("ix_y", "y", &[2]), ("ix_r", "r", &[3]), ("ix_s", "s", &[4]), ("ix_dt", "dt", &[5]), ("ix_n", "n", &[6]), ("ix_xn", "x, n", &[1, 6])];
+fn indexes() -> &'static [(&'static str, &'static str, &'static [usize])] {
+    if schema() == 0 { &INDEXES_T } else { &INDEXES_U }
+}
+fn create_table_sql() -> &'static str {
+    if schema() == 0 {
+        "CREATE TABLE t (id INTEGER, a INTEGER, b VARCHAR(20), c INTEGER)"
+    } else {
+        "CREATE TABLE t (id INTEGER, x DOUBLE PRECISION, y NUMERIC(10,2), r REAL, s VARCHAR(20), dt DATE, n INTEGER)"
+    }
+}
+fn table_doc() -> &'static str {
+    if schema() == 0 { "t(id,a,b,c); indexes ix_a(a), ix_b(b), ix_ac(a,c)" } else { "t(id,x DOUBLE,y NUMERIC,r REAL,s VARCHAR,dt DATE,n INTEGER); indexes ix_x, ix_y, ix_r, ix_s, ix_dt, ix_n, ix_xn(x,n)" }
+}
+/// grid value q/4
+fn grid(q: i64) -> f64 {
+    q as f64 / 4.0
+}
+fn date_of(q: i64) -> SqlValue {
+    let q = q.rem_euclid(336);
+    SqlValue::Date(vibesql_types::Date::new(2024, 1 + (q / 28) as u8, 1 + (q % 28) as u8).unwrap())
+}
+/// `normalize_for_comparison` of the index layer
+fn norm_val(v: &SqlValue) -> SqlValue {
+    match v {
+        SqlValue::Integer(i) | SqlValue::Bigint(i) => SqlValue::Double(*i as f64),
+        SqlValue::Smallint(i) => SqlValue::Double(*i as f64),
+        SqlValue::Numeric(f) => SqlValue::Double(*f),
+        SqlValue::Real(f) | SqlValue::Float(f) => SqlValue::Double(*f as f64),
+        o => o.clone(),
+    }
+}
 
 fn lit(v: &SqlValue) -> String {
     match v {
@@ -72,11 +114,29 @@ fn lit(v: &SqlValue) -> String {
             if *i < 0 { format!("(0{})", i) } else { i.to_string() }
         }
         SqlValue::Varchar(s) => format!("'{}'", s),
+        SqlValue::Double(f) | SqlValue::Numeric(f) => format!("{:?}", f),
+        SqlValue::Real(f) | SqlValue::Float(f) => format!("{:?}", f),
+        SqlValue::Date(d) => format!("DATE '{:04}-{:02}-{:02}'", d.year, d.month, d.day),
         other => format!("{:?}", other),
     }
 }
 
 fn gen_row(rng: &mut Rng, id: i64, spread: i64) -> Vec<SqlValue> {
+    if schema() == 1 {
+        let q = |rng: &mut Rng| rng.range(0, spread * 4);
+        let nul = |rng: &mut Rng, v: SqlValue| if rng.chance(1, 14) { SqlValue::Null } else { v };
+        let (qx, qy, qr, qs, qd) = (q(rng), q(rng), q(rng), q(rng), q(rng));
+        let nv = rng.range(0, spread);
+        return vec![
+            SqlValue::Integer(id),
+            nul(rng, SqlValue::Double(grid(qx))),
+            nul(rng, SqlValue::Numeric(grid(qy))),
+            nul(rng, SqlValue::Real(grid(qr) as f32)),
+            nul(rng, SqlValue::Varchar(format!("k{:04}", qs * 25))),
+            nul(rng, date_of(qd)),
+            nul(rng, SqlValue::Integer(nv)),
+        ];
+    }
     let a = if rng.chance(1, 12) { SqlValue::Null } else { SqlValue::Integer(rng.range(0, spread)) };
     let b = if rng.chance(1, 12) { SqlValue::Null } else { SqlValue::Varchar(format!("s{}", rng.range(0, spread))) };
     let c = if rng.chance(1, 12) { SqlValue::Null } else { SqlValue::Integer(rng.range(0, 5)) };
@@ -105,9 +165,69 @@ struct Shared {
     dup_keys_seen: bool,
 }
 
+/// a numeric bound on the grid (equal to keys that exist) or strictly between two grid points
+fn num_bound(rng: &mut Rng, spread: i64) -> f64 {
+    let g = grid(rng.range(0, spread * 4));
+    match rng.below(3) {
+        0 => g + 0.125,
+        _ => g,
+    }
+}
+
+/// statements for the fractional / string / date schema: every comparison operator, strict and not,
+/// bounds on and between keys, on every indexed column (the executor's residual filter included:
+/// what is compared is the query result)
+fn gen_stmt_u(rng: &mut Rng, next_id: &mut i64, spread: i64) -> (String, bool) {
+    let x = rng.below(100);
+    if x < 16 {
+        let r = gen_row(rng, *next_id, spread);
+        *next_id += 1;
+        return (format!("INSERT INTO t SELECT {}", r.iter().map(lit).collect::<Vec<_>>().join(", ")), false);
+    }
+    let any_id = |rng: &mut Rng, n: i64| rng.below(n.max(1) as u64);
+    if x < 30 {
+        let r = gen_row(rng, 0, spread);
+        let (col, i) = *rng.pick(&[("x", 1usize), ("y", 2), ("r", 3), ("s", 4), ("dt", 5), ("n", 6)]);
+        let wh = if rng.chance(1, 2) { format!("id = {}", any_id(rng, *next_id)) } else { format!("x > {:?}", num_bound(rng, spread)) };
+        return (format!("UPDATE t SET {} = {} WHERE {}", col, lit(&r[i]), wh), false);
+    }
+    if x < 38 {
+        let wh = if rng.chance(2, 3) { format!("id = {}", any_id(rng, *next_id)) } else { format!("y > {:?} AND y < {:?}", num_bound(rng, spread), num_bound(rng, spread)) };
+        return (format!("DELETE FROM t WHERE {}", wh), false);
+    }
+    let op = *rng.pick(&[">", ">", ">=", "<", "<=", "="]);
+    let (b1, b2) = {
+        let p = num_bound(rng, spread);
+        let q = num_bound(rng, spread);
+        (p.min(q), p.max(q))
+    };
+    match rng.below(12) {
+        0 | 1 => {
+            let c = *rng.pick(&["x", "y", "r"]);
+            (format!("SELECT * FROM t WHERE {} {} {:?}", c, op, b1), false)
+        }
+        2 => {
+            let c = *rng.pick(&["x", "y", "r"]);
+            (format!("SELECT * FROM t WHERE {} > {:?} AND {} {} {:?}", c, b1, c, rng.pick(&["<", "<="]), b2), false)
+        }
+        3 => {
+            let c = *rng.pick(&["x", "y", "r"]);
+            (format!("SELECT * FROM t WHERE {} BETWEEN {:?} AND {:?}", c, b1, b2), false)
+        }
+        4 => (format!("SELECT * FROM t WHERE n {} {:?}", op, b1), false), // integer column, fractional bound
+        5 => (format!("SELECT * FROM t WHERE s {} 'k{:04}'", op, rng.range(0, spread * 4) * 25 + *rng.pick(&[0i64, 0, 12])), false),
+        6 => (format!("SELECT * FROM t WHERE dt {} {}", op, lit(&date_of(rng.range(0, spread * 4)))), false),
+        7 => (format!("SELECT * FROM t WHERE x > {:?} AND n {} {}", b1, rng.pick(&[">", ">=", "<", "="]), rng.range(0, spread)), false),
+        8 => (format!("SELECT x, id FROM t WHERE x > {:?} ORDER BY x", b1), true),
+        9 => (format!("SELECT * FROM t WHERE x IN ({:?}, {:?}, {:?})", b1, b2, grid(rng.range(0, spread * 4))), false),
+        10 => (format!("SELECT COUNT(*) FROM t WHERE r > {:?}", b1), false),
+        _ => (format!("SELECT * FROM t WHERE y >= {:?} AND y < {:?}", b1, b2), false),
+    }
+}
+
 /// compare index contents of the twins; returns a description of the first difference
 fn compare_indexes(mem: &Db, disk: &Db, rep: &mut Report, must_be_spilled: bool) -> Result<(), String> {
-    for (ix, _) in INDEXES {
+    for (ix, _, _) in indexes().iter().copied() {
         let (m_disk, m, _) = contents(&mem.db, ix)?;
         let (d_disk, d, _) = contents(&disk.db, ix)?;
         if m_disk {
@@ -132,13 +252,13 @@ fn mode_a(args: &Args, id: u64, rng: &mut Rng, rep: &mut Report, n_rows: usize, 
     let mut sh = Shared { dup_keys_seen: false };
     let mut next_id = 0i64;
     let both = |mem: &mut Db, disk: &mut Db, sql: &str| -> (Out, Out) { (mem.exec(sql), disk.exec(sql)) };
-    both(&mut mem, &mut disk, "CREATE TABLE t (id INTEGER, a INTEGER, b VARCHAR(20), c INTEGER)");
+    both(&mut mem, &mut disk, create_table_sql());
     for _ in 0..n_rows.max(1) {
         let r = gen_row(rng, next_id, spread);
         next_id += 1;
         both(&mut mem, &mut disk, &format!("INSERT INTO t SELECT {}", r.iter().map(lit).collect::<Vec<_>>().join(", ")));
     }
-    for (ix, cols) in INDEXES {
+    for (ix, cols, _) in indexes().iter().copied() {
         both(&mut mem, &mut disk, &format!("CREATE INDEX {} ON t ({})", ix, cols));
     }
     let fail = |rep: &mut Report, mem: &Db, what: &str, detail: &str| {
@@ -157,7 +277,9 @@ fn mode_a(args: &Args, id: u64, rng: &mut Rng, rep: &mut Report, n_rows: usize, 
     for _ in 0..n_stmts {
         let v = |rng: &mut Rng| rng.range(0, spread);
         let x = rng.below(100);
-        let (sql, ordered) = if x < 18 {
+        let (sql, ordered) = if schema() == 1 {
+            gen_stmt_u(rng, &mut next_id, spread)
+        } else if x < 18 {
             let r = gen_row(rng, next_id, spread);
             next_id += 1;
             (format!("INSERT INTO t SELECT {}", r.iter().map(lit).collect::<Vec<_>>().join(", ")), false)
@@ -205,7 +327,7 @@ fn mode_a(args: &Args, id: u64, rng: &mut Rng, rep: &mut Report, n_rows: usize, 
             fail(rep, &mem, "index contents differ between the backends", &e);
             break;
         }
-        if let Ok((_, c, _)) = contents(&mem.db, "ix_a") {
+        if let Ok((_, c, _)) = contents(&mem.db, indexes()[0].0) {
             if c.iter().any(|(_, rs)| rs.len() >= 2) {
                 sh.dup_keys_seen = true;
             }
@@ -224,15 +346,8 @@ enum IOp {
 }
 
 fn key_of(row: &[SqlValue], ix: &str) -> Vec<SqlValue> {
-    let norm = |v: &SqlValue| match v {
-        SqlValue::Integer(i) => SqlValue::Double(*i as f64),
-        o => o.clone(),
-    };
-    match ix {
-        "ix_a" => vec![norm(&row[1])],
-        "ix_b" => vec![norm(&row[2])],
-        _ => vec![norm(&row[1]), norm(&row[3])],
-    }
+    let cols = indexes().iter().find(|i| i.0 == ix).map(|i| i.2).unwrap_or(&[]);
+    cols.iter().map(|c| norm_val(&row[*c])).collect()
 }
 
 fn assoc_sx(c: &[(usize, Vec<usize>)]) -> String {
@@ -254,7 +369,7 @@ fn assoc_sx(c: &[(usize, Vec<usize>)]) -> String {
 fn mode_b(args: &Args, id: u64, rng: &mut Rng, model: &mut model::Model, rep: &mut Report, n_rows: usize, n_ops: usize, spread: i64, scripted: Option<(Vec<Vec<SqlValue>>, Vec<IOp>)>) -> bool {
     let (mut mem, mut disk, dir) = twins(args, id);
     for db in [&mut mem, &mut disk] {
-        db.exec("CREATE TABLE t (id INTEGER, a INTEGER, b VARCHAR(20), c INTEGER)");
+        db.exec(create_table_sql());
     }
     // the key the table is stored under (insert_row does no name resolution)
     let tname = mem.db.list_tables().into_iter().next().unwrap_or_else(|| "t".into());
@@ -290,17 +405,17 @@ fn mode_b(args: &Args, id: u64, rng: &mut Rng, model: &mut model::Model, rep: &m
         }
         rows.push(Some(r.clone()));
     }
-    for (ix, cols) in INDEXES {
+    for (ix, cols, _) in indexes().iter().copied() {
         for db in [&mut mem, &mut disk] {
             db.exec(&format!("CREATE INDEX {} ON t ({})", ix, cols));
         }
     }
     let table = {
         // the name the index metadata carries
-        disk.db.get_index("ix_a").map(|m| m.table_name.clone()).unwrap_or_else(|| "t".into())
+        disk.db.get_index(indexes()[0].0).map(|m| m.table_name.clone()).unwrap_or_else(|| "t".into())
     };
     let describe = |init: &Vec<Vec<SqlValue>>, ops: &Vec<IOp>, upto: usize| -> String {
-        let mut s = String::from("-- index-API replay: table t(id,a,b,c), initial rows then CREATE INDEX ix_a(a), ix_b(b), ix_ac(a,c) on both twins\n");
+        let mut s = format!("-- index-API replay: table {}; initial rows, then CREATE INDEX on both twins\n", table_doc());
         for r in init {
             s.push_str(&format!("insert_row {}\n", canon::row(r)));
         }
@@ -323,7 +438,7 @@ fn mode_b(args: &Args, id: u64, rng: &mut Rng, model: &mut model::Model, rep: &m
     }
     let mut ok = true;
     let mut pools: BTreeMap<&str, Vec<Vec<SqlValue>>> = BTreeMap::new();
-    for (ix, _) in INDEXES {
+    for (ix, _, _) in indexes().iter().copied() {
         let mut p: Vec<Vec<SqlValue>> = all_rows.iter().map(|r| key_of(r, ix)).collect();
         p.sort_by(|a, b| a.cmp(b));
         p.dedup_by(|a, b| a.as_slice().cmp(b.as_slice()) == std::cmp::Ordering::Equal);
@@ -332,7 +447,7 @@ fn mode_b(args: &Args, id: u64, rng: &mut Rng, model: &mut model::Model, rep: &m
     let rank = |ix: &str, k: &Vec<SqlValue>| pools[ix].binary_search_by(|p| p.cmp(k)).ok();
     // model request per index
     let mut model_steps: BTreeMap<&str, Vec<Sx>> = BTreeMap::new();
-    for (ix, _) in INDEXES {
+    for (ix, _, _) in indexes().iter().copied() {
         let mut bulk: Vec<(usize, usize)> = init.iter().enumerate().map(|(i, r)| (rank(ix, &key_of(r, ix)).unwrap(), i)).collect();
         bulk.sort();
         let degree = contents(&disk.db, ix).map(|c| c.2).unwrap_or(5).max(5);
@@ -417,7 +532,7 @@ fn mode_b(args: &Args, id: u64, rng: &mut Rng, model: &mut model::Model, rep: &m
             ok = false;
             break;
         }
-        for (ix, _) in INDEXES {
+        for (ix, _, _) in indexes().iter().copied() {
             let (m, d) = (mem.db.get_index_data(ix).unwrap(), disk.db.get_index_data(ix).unwrap());
             let pool = &pools[ix];
             let sorted = |mut v: Vec<usize>| {
@@ -439,42 +554,50 @@ fn mode_b(args: &Args, id: u64, rng: &mut Rng, model: &mut model::Model, rep: &m
             if firsts.is_empty() {
                 continue;
             }
-            let pick = |rng: &mut Rng| firsts[rng.below(firsts.len() as u64) as usize].clone();
-            for _ in 0..4 {
+            let pick = |rng: &mut Rng| match firsts[rng.below(firsts.len() as u64) as usize].clone() {
+                // numeric keys: also bounds strictly between keys, and bounds that are not normalised yet
+                SqlValue::Double(f) => match rng.below(6) {
+                    0 => SqlValue::Double(f + 0.125),
+                    1 => SqlValue::Double(f - 0.125),
+                    2 => SqlValue::Numeric(f),
+                    3 if f.fract() == 0.0 => SqlValue::Integer(f as i64),
+                    _ => SqlValue::Double(f),
+                },
+                o => o,
+            };
+            for _ in 0..6 {
                 let (s, e) = {
                     let p = pick(rng);
                     let q = pick(rng);
-                    if p <= q { (p, q) } else { (q, p) }
+                    if norm_val(&p).cmp(&norm_val(&q)) != std::cmp::Ordering::Greater { (p, q) } else { (q, p) }
                 };
                 let so = if rng.chance(1, 5) { None } else { Some(&s) };
                 let eo = if rng.chance(1, 5) { None } else if rng.chance(1, 5) { Some(&s) } else { Some(&e) };
                 let (is, ie) = (rng.chance(1, 2), rng.chance(1, 2));
                 let (rm, rd) = (sorted(m.range_scan(so, eo, is, ie)), sorted(d.range_scan(so, eo, is, ie)));
                 rep.count("query_range_scan");
-                // an index scan may over-approximate (the executor re-checks the predicate on the rows
-                // it fetches) but must never miss a row whose first key column lies in the range
-                let norm = |v: &SqlValue| key_of(&[SqlValue::Null, v.clone(), v.clone(), SqlValue::Null], "ix_a")[0].clone();
-                let expected: Vec<usize> = rows
+                // the executor does not re-check the predicate on every path (index-ordered scans skip
+                // it), so a scan must return exactly the rows whose first key column lies in the range
+                // (a range predicate is never true for NULL; with no bound at all every row is returned)
+                let norm = |v: &SqlValue| norm_val(v);
+                let mut expected: Vec<usize> = rows
                     .iter()
                     .enumerate()
                     .filter_map(|(i, r)| r.as_ref().map(|r| (i, key_of(r, ix)[0].clone())))
                     .filter(|(_, f)| {
-                        *f != SqlValue::Null
-                            && so.map_or(true, |s| if is { norm(s).cmp(f) != std::cmp::Ordering::Greater } else { norm(s).cmp(f) == std::cmp::Ordering::Less })
-                            && eo.map_or(true, |e| if ie { f.cmp(&norm(e)) != std::cmp::Ordering::Greater } else { f.cmp(&norm(e)) == std::cmp::Ordering::Less })
+                        (so.is_none() && eo.is_none())
+                            || (*f != SqlValue::Null
+                                && so.map_or(true, |s| if is { norm(s).cmp(f) != std::cmp::Ordering::Greater } else { norm(s).cmp(f) == std::cmp::Ordering::Less })
+                                && eo.map_or(true, |e| if ie { f.cmp(&norm(e)) != std::cmp::Ordering::Greater } else { f.cmp(&norm(e)) == std::cmp::Ordering::Less }))
                     })
                     .map(|(i, _)| i)
                     .collect();
-                let miss_m: Vec<usize> = expected.iter().copied().filter(|i| !rm.contains(i)).collect();
-                let miss_d: Vec<usize> = expected.iter().copied().filter(|i| !rd.contains(i)).collect();
-                if rm != rd {
-                    rep.count("range_scan_backends_differ_in_rows_outside_the_range_only");
-                }
-                if !miss_m.is_empty() || !miss_d.is_empty() {
+                expected.sort();
+                if rm != expected || rd != expected {
                     rep.fail(
                         FailKind::Oracle,
                         None,
-                        if miss_d.is_empty() { "IndexData::range_scan of the in-memory backend misses rows in the range" } else { "IndexData::range_scan of the disk-backed backend misses rows in the range" },
+                        if rd != expected { "IndexData::range_scan of the disk-backed backend does not return exactly the rows in the range" } else { "IndexData::range_scan of the in-memory backend does not return exactly the rows in the range" },
                         &format!("{}-- {} range_scan({:?}, {:?}, {}, {}): rows in range {:?}; in-memory {:?}, disk-backed {:?}\n", describe(&init, &ops, step.saturating_sub(1)), ix, so.map(canon::val), eo.map(canon::val), is, ie, expected, rm, rd),
                     );
                     ok = false;
@@ -497,7 +620,7 @@ fn mode_b(args: &Args, id: u64, rng: &mut Rng, model: &mut model::Model, rep: &m
             }
         }
         // correspondence: both backends vs the model of both backends
-        for (ix, _) in INDEXES {
+        for (ix, _, _) in indexes().iter().copied() {
             let to_ranks = |c: &Contents| -> Vec<(usize, Vec<usize>)> { c.iter().map(|(k, rs)| (rank(ix, k).unwrap_or(usize::MAX), rs.clone())).collect() };
             let cm = assoc_sx(&to_ranks(&contents(&mem.db, ix).unwrap().1));
             let cd = assoc_sx(&to_ranks(&contents(&disk.db, ix).unwrap().1));
@@ -523,6 +646,87 @@ fn mode_b(args: &Args, id: u64, rng: &mut Rng, model: &mut model::Model, rep: &m
     ok
 }
 
+/// deterministic probe (schema 1): keys {1.0, 1.25, 1.5, 1.75, 2.0, 2.5} in every key type, every
+/// comparison shape on both twins, each result compared with the answer computed here
+fn probe_fractional(args: &Args, id: u64, rep: &mut Report) -> bool {
+    set_schema(1);
+    let (mut mem, mut disk, dir) = twins(args, id);
+    let vals = [1.0f64, 1.25, 1.5, 1.75, 2.0, 2.5];
+    let q4 = |v: f64| (v * 4.0) as i64;
+    for db in [&mut mem, &mut disk] {
+        db.exec(create_table_sql());
+        for (i, v) in vals.iter().enumerate() {
+            // n = 1,1,1,1,2,2 : an integer column to be probed with fractional bounds
+            let row = vec![SqlValue::Integer(i as i64), SqlValue::Double(*v), SqlValue::Numeric(*v), SqlValue::Real(*v as f32), SqlValue::Varchar(format!("k{:04}", q4(*v) * 25)), date_of(q4(*v)), SqlValue::Integer(*v as i64)];
+            db.exec(&format!("INSERT INTO t SELECT {}", row.iter().map(lit).collect::<Vec<_>>().join(", ")));
+        }
+        for (ix, cols, _) in indexes().iter().copied() {
+            db.exec(&format!("CREATE INDEX {} ON t ({})", ix, cols));
+        }
+    }
+    let mut ok = true;
+    if let Err(e) = compare_indexes(&mem, &disk, rep, true) {
+        rep.fail(FailKind::Oracle, None, "fractional probe: index contents differ / not spilled", &format!("{};\n-- {}\n", mem.log.join(";\n"), e));
+        ok = false;
+    }
+    // (operator, bound) pairs: bounds equal to keys and strictly between keys
+    let shapes: Vec<(&str, f64)> = vec![(">", 1.0), (">", 1.25), (">", 1.1), (">", 1.75), (">", 2.0), (">", 0.5), (">=", 1.5), (">=", 1.6), ("<", 2.0), ("<", 1.3), ("<=", 1.75), ("<=", 1.8), ("=", 1.5), ("=", 1.6)];
+    let holds = |op: &str, k: f64, b: f64| match op {
+        ">" => k > b,
+        ">=" => k >= b,
+        "<" => k < b,
+        "<=" => k <= b,
+        _ => k == b,
+    };
+    let mut queries: Vec<(String, Vec<usize>)> = vec![];
+    for (op, b) in &shapes {
+        for col in ["x", "y", "r"] {
+            queries.push((format!("SELECT id FROM t WHERE {} {} {:?}", col, op, b), (0..6).filter(|i| holds(op, vals[*i], *b)).collect()));
+        }
+        // integer column n (= floor of the key) against the fractional bound
+        queries.push((format!("SELECT id FROM t WHERE n {} {:?}", op, b), (0..6).filter(|i| holds(op, vals[*i].floor(), *b)).collect()));
+        // strings and dates follow the same order as the grid; only bounds on the grid make sense for dates
+        let sb = format!("k{:04}", (b * 100.0) as i64);
+        queries.push((format!("SELECT id FROM t WHERE s {} '{}'", op, sb), (0..6).filter(|i| holds(op, vals[*i], *b)).collect()));
+        if (b * 4.0).fract() == 0.0 {
+            queries.push((format!("SELECT id FROM t WHERE dt {} {}", op, lit(&date_of(q4(*b)))), (0..6).filter(|i| holds(op, vals[*i], *b)).collect()));
+        }
+        // composite index (x, n)
+        queries.push((format!("SELECT id FROM t WHERE x {} {:?} AND n >= 1", op, b), (0..6).filter(|i| holds(op, vals[*i], *b)).collect()));
+    }
+    for (lo, hi) in [(1.25, 2.0), (1.1, 1.8), (1.0, 1.0), (1.5, 2.5)] {
+        for col in ["x", "y", "r"] {
+            queries.push((format!("SELECT id FROM t WHERE {} BETWEEN {:?} AND {:?}", col, lo, hi), (0..6).filter(|i| vals[*i] >= lo && vals[*i] <= hi).collect()));
+            queries.push((format!("SELECT id FROM t WHERE {} > {:?} AND {} < {:?}", col, lo, col, hi), (0..6).filter(|i| vals[*i] > lo && vals[*i] < hi).collect()));
+        }
+    }
+    for (sql, want) in &queries {
+        rep.count("probe_fractional_queries");
+        for (name, db) in [("in-memory", &mut mem), ("disk-backed", &mut disk)] {
+            let got: Option<Vec<usize>> = match db.exec(sql) {
+                Out::Rows(r) => {
+                    let mut v: Vec<usize> = r.iter().filter_map(|x| if let SqlValue::Integer(i) = x[0] { Some(i as usize) } else { None }).collect();
+                    v.sort();
+                    Some(v)
+                }
+                _ => None,
+            };
+            if got.as_ref() != Some(want) {
+                rep.fail(
+                    FailKind::Oracle,
+                    None,
+                    &format!("fractional-key probe: {} twin returns the wrong rows", name),
+                    &format!("-- twin A: Database::new(); twin B: with_path_and_config(dir, memory_budget 0, SpillToDisk)\n{};\n-- {} twin: ids {:?}, expected {:?}\n", db.log.join(";\n"), name, got, want),
+                );
+                ok = false;
+            }
+        }
+    }
+    drop(disk);
+    let _ = std::fs::remove_dir_all(&dir);
+    ok
+}
+
 fn iv(i: i64) -> SqlValue {
     SqlValue::Integer(i)
 }
@@ -537,11 +741,17 @@ fn main() {
         "a case is non-trivial iff every index of the budget-0 twin was observed to be disk backed (get_index_data), at least one key held two or more row ids, and every statement / maintenance call was followed by a comparison of results and index contents",
     );
     rep.assumptions.push("the spill is forced by memory_budget = 0 with SpillToDisk at CREATE INDEX; the 100 000-row DISK_BACKED_THRESHOLD path builds the same BTreeIndex by the same bulk_load and is not run".into());
-    rep.assumptions.push("integer and short string keys; fractional keys (the disk-backed prefix scan uses [v, v+1)) are not generated".into());
+    rep.assumptions.push("keys: integers, short strings, and (every second case) DOUBLE / NUMERIC / REAL / VARCHAR / DATE keys on a dense grid of quarters, with bounds on and strictly between keys; IndexData::range_scan of either backend must return exactly the rows whose first key column is in the range (the executor skips the re-check on index-ordered paths); SQL results must be equal between the twins".into());
     let mut model = args.model();
     let mut rng = Rng::new(args.seed);
     let mut id = 0u64;
 
+    // deterministic probe on fractional / REAL / NUMERIC / string / DATE keys, independent expected answers
+    id += 1;
+    let okp = probe_fractional(&args, id, &mut rep);
+    rep.count("probe_cases");
+    rep.case("probe fractional keys", okp);
+    set_schema(0);
     // deterministic probes: duplicate key, update / delete of one of the rows sharing it
     let init = vec![vec![iv(0), iv(7), sv("x"), iv(1)], vec![iv(1), iv(7), sv("x"), iv(1)], vec![iv(2), iv(7), sv("y"), iv(2)], vec![iv(3), iv(8), sv("y"), iv(2)]];
     for ops in [
@@ -566,6 +776,8 @@ fn main() {
     let n_b = args.n(60, 1500);
     for i in 0..n_b {
         id += 1;
+        set_schema((i % 2) as usize);
+        rep.count(if schema() == 0 { "schema_int_string" } else { "schema_fractional_string_date" });
         let spread = *rng.pick(&[3i64, 8, 30]);
         let n_rows = *rng.pick(&[1usize, 4, 15, 40]);
         let before = rep.violations();
@@ -579,6 +791,8 @@ fn main() {
     let n_a = args.n(60, 1500);
     for i in 0..n_a {
         id += 1;
+        set_schema((i % 2) as usize);
+        rep.count(if schema() == 0 { "schema_int_string" } else { "schema_fractional_string_date" });
         let spread = *rng.pick(&[3i64, 8, 30]);
         let n_rows = *rng.pick(&[1usize, 5, 20, 60]);
         let before = rep.violations();
